@@ -3039,3 +3039,60 @@ Lemma isolation_refuted_without_rs_local :
   (exists s s', get_sess h 1 = Some s /\
      get_sess (fst (qstep h (OApi 1 1 9 (AParticipants [(IdRS 5, 0, Some 24)])))) 1 = Some s' /\ s_perms s = None /\ s_perms s' = Some 24).
 Proof. vm_compute. split; [eexists; split; reflexivity|]. split; [reflexivity|]. eexists. eexists. repeat split; reflexivity. Qed.
+
+(* ------------------------------------------------------------------ the dial-out request of the room API *)
+(* what a dial-out request writes is the request itself *)
+Lemma send_dialout_outs h x r c m : In (ToConn c m) (snd (send_session h x (SDialout r))) -> m = SDialout r.
+Proof.
+  unfold send_session. match goal with |- context [deliver_to_session h ?t _] => generalize t end. intros t.
+  unfold deliver_to_session. destruct (get_sess h t) as [s|]; [|intros []].
+  cbv beta iota zeta. destruct (s_conn s) as [c'|]; cbn [snd In is_closing].
+  - intros [E|[]]. now injection E.
+  - intros [].
+Qed.
+
+Lemma dialout_session_none h b :
+  (forall sid s, In sid (h_dialout h) -> get_sess h sid = Some s -> s_backend s = b -> s_conn s = None) ->
+  dialout_session h b = None.
+Proof.
+  intros Hno. destruct (dialout_session h b) as [x|] eqn:Hd; [|reflexivity]. exfalso.
+  unfold dialout_session in Hd. apply find_some in Hd as [Hin Hok]. unfold dialout_ok in Hok.
+  destruct (get_sess h x) as [s|] eqn:Hs; [|discriminate]. apply andb_prop in Hok as [Hb Hc].
+  apply N.eqb_eq in Hb. rewrite (Hno x s Hin Hs Hb) in Hc. discriminate.
+Qed.
+
+(* A dial-out request of backend b (whoever signed it, whatever room and number): every message it causes
+   is the request itself, written to a connection of a session of b; no session of another backend changes,
+   appears or disappears; and when b has no connected dial-out client - whatever clients OTHER backends
+   have - nothing happens at all. *)
+Theorem dialout_own_backend h b signas room ok : TI h ->
+  let r := step h (OApi b signas room (ADialout ok)) in
+  (forall c m, In (ToConn c m) (snd r) -> m = SDialout room /\ bconn b h c) /\
+  (forall sid s, s_backend s <> b -> get_sess h sid = Some s \/ get_sess (fst r) sid = Some s ->
+     get_sess (fst r) sid = get_sess h sid) /\
+  ((forall sid s, In sid (h_dialout h) -> get_sess h sid = Some s -> s_backend s = b -> s_conn s = None) -> r = (h, [])).
+Proof.
+  intros TIh. cbv zeta. cbn [step].
+  destruct (negb (N.eqb b signas) || (h_nb h <=? b)).
+  { split; [intros c m []|]. split; [reflexivity|reflexivity]. }
+  pose proof (loc_do_api b None h room (ADialout ok) TIh eq_refl) as [F O].
+  split; [|split].
+  - intros c m Hin. split.
+    + revert Hin. unfold do_api. destruct ok; cbn [negb]; [|intros []].
+      destruct (dialout_session h b) as [x|]; [|intros []].
+      pose proof (send_dialout_outs h x room c m) as Hs. destruct (send_session h x (SDialout room)) as [h1 o1].
+      cbn [snd] in *. exact Hs.
+    + destruct (O c m Hin) as [E|Hc]; [discriminate|exact Hc].
+  - intros sid s Hne Hs. apply (fr_sess _ _ _ _ F sid s Hs Hne).
+  - intros Hno. unfold do_api. destruct ok; cbn [negb]; [|reflexivity]. now rewrite (dialout_session_none h b Hno).
+Qed.
+
+(* not vacuous: tenant 0 has a connected dial-out client; a request of tenant 1 reaches nobody, a request of
+   tenant 0 reaches that client; once tenant 1 has a client of its own, its request reaches that one *)
+Example dialout_two_tenants :
+  let h := qrun (init [0; 0] false) [OConnect 1 0; OConnect 2 0; OHello 1 (HInternal 0 0 false true)] in
+  snd (qstep h (OApi 1 1 5 (ADialout true))) = [] /\
+  snd (qstep h (OApi 0 0 5 (ADialout true))) = [ToConn 1 (SDialout 5)] /\
+  snd (qstep h (OApi 0 0 5 (ADialout false))) = [] /\
+  snd (qstep (fst (qstep h (OHello 2 (HInternal 1 0 false true)))) (OApi 1 1 5 (ADialout true))) = [ToConn 2 (SDialout 5)].
+Proof. vm_compute. repeat split; reflexivity. Qed.
